@@ -519,7 +519,11 @@ package server
 //@   ensures result == deq(x, y)
 
 //@ unit server.IsEntityEqual
-//@   prop C01
+//@   prop C01 C02
+//@   ensures [C02,C01:identical-content-is-recognised-as-equal-so-an-identical-write-adds-nothing] len(prevJson) == len(thisJson) && prevEntity.IsDeleted == thisEntity.IsDeleted && len(prevEntity.References) == len(thisEntity.References) && len(prevEntity.Properties) == len(thisEntity.Properties)
+//@     | && (forall k string :: has(prevEntity.References, k) ==> has(thisEntity.References, k) && norm(prevEntity.References[k]) == norm(thisEntity.References[k]) && deq(norm(prevEntity.References[k]), norm(thisEntity.References[k])))
+//@     | && (forall k string :: has(prevEntity.Properties, k) ==> has(thisEntity.Properties, k) && norm(prevEntity.Properties[k]) == norm(thisEntity.Properties[k]) && deq(norm(prevEntity.Properties[k]), norm(thisEntity.Properties[k])))
+//@     | ==> result
 //@   requires [prev] prevEntity != nil
 //@   requires [this] thisEntity != nil
 //@   ensures [equal-means-same-deleted-flag] result ==> prevEntity.IsDeleted == thisEntity.IsDeleted
